@@ -11,6 +11,7 @@ import (
 	"strings"
 	"sync"
 	"testing"
+	"time"
 
 	"pgregory.net/rapid"
 
@@ -18,6 +19,7 @@ import (
 	types_helper "github.com/jcmoraisjr/haproxy-ingress/pkg/types/helper_test"
 
 	"verifharness/ctlsim"
+	"verifharness/world"
 )
 
 // C17, part 3: a certificate that is needed can only be requested while the acme account is loaded. The instance
@@ -212,4 +214,78 @@ func init() { registerReplay("C17A", execC17Acct) }
 
 func TestC17Account(t *testing.T) {
 	runPropertyAs(t, "C17", "C17A", genC17Acct, execC17Acct)
+}
+
+// C17, part 4: the signer's decision when the secret is read through the controller's own cache facade
+// (GetTLSSecretContent: the real PEM parsing), for secrets that hold the leaf alone or the leaf followed by its issuer.
+
+// C17CacheCase ...
+type C17CacheCase struct {
+	Cert       int      `json:"cert"`  // index into the certificate pool (world.PoolSpec)
+	Chain      bool     `json:"chain"` // tls.crt holds the leaf followed by the certificate of its issuer
+	Domains    []string `json:"domains"`
+	WindowDays int      `json:"windowDays"`
+}
+
+func genC17Cache(t *rapid.T) C17CacheCase {
+	c := C17CacheCase{
+		Cert:       rapid.IntRange(0, world.PoolSize()-1).Draw(t, "cert"),
+		Chain:      rapid.Bool().Draw(t, "chain"),
+		WindowDays: rapid.SampledFrom([]int{0, 1, 30, 60}).Draw(t, "window"),
+	}
+	spec := world.PoolSpec[c.Cert]
+	if chanceT(t, "declared-from-sans", 70) {
+		n := rapid.IntRange(1, len(spec.SANs)).Draw(t, "ndomains")
+		for _, d := range spec.SANs[:n] {
+			c.Domains = append(c.Domains, strings.Replace(d, "*", "x", 1))
+		}
+	} else {
+		c.Domains = []string{rapid.SampledFrom([]string{"h1.local", "h2.local", "h3.local", "x.w.local", "zz.local"}).Draw(t, "domain")}
+	}
+	return c
+}
+
+func execC17Cache(c C17CacheCase) *Failure {
+	st := getStats("C17")
+	kind := "tls"
+	if c.Chain {
+		kind = "tlschain"
+	}
+	s, steps, err := freshSim(ctlsim.Params{}, []*world.Obj{
+		{Kind: world.KNamespace, Name: "a"},
+		{Kind: world.KSecret, NS: "a", Name: "t1", SecretKind: kind, Cert: c.Cert},
+	})
+	if err != nil {
+		panic(err)
+	}
+	defer s.Close()
+	if e := stepErrors(steps); e != nil {
+		return failf("C17:update-error", "%v", e)
+	}
+	window := time.Duration(c.WindowDays) * 24 * time.Hour
+	client := &c17Client{mode: "error"}
+	signer := acme.VerifNewSigner(&ctlsim.RecLogger{}, s.Cache, types_helper.NewMetricsMock(), client, window)
+	_ = signer.Notify("a/t1,," + strings.Join(c.Domains, ","))
+	spec := world.PoolSpec[c.Cert]
+	covering := true
+	for _, d := range c.Domains {
+		if !refCovers(spec.SANs, d) {
+			covering = false
+		}
+	}
+	needed := spec.NotAfter < window || !covering
+	st.Case(c, c.Chain && !needed, "signer-through-cache", fmt.Sprintf("chain=%v", c.Chain), fmt.Sprintf("signer-needed=%v", needed))
+	if needed && client.calls != 1 {
+		return failf("C17:certificate-not-requested", "secret a/t1 (leaf %v valid for %v more, chain=%v) for domains %v with a window of %d days needs a certificate, but Sign was called %d time(s)", spec.SANs, spec.NotAfter, c.Chain, c.Domains, c.WindowDays, client.calls)
+	}
+	if !needed && client.calls != 0 {
+		return failf("C17:valid-certificate-re-requested", "the certificate of secret a/t1 (leaf %v valid for %v more, chain=%v) covers %v and does not expire within %d days, yet it was re-requested", spec.SANs, spec.NotAfter, c.Chain, c.Domains, c.WindowDays)
+	}
+	return nil
+}
+
+func init() { registerReplay("C17C", execC17Cache) }
+
+func TestC17Cache(t *testing.T) {
+	runPropertyAs(t, "C17", "C17C", genC17Cache, execC17Cache)
 }
